@@ -65,7 +65,7 @@ func (m *M) offCurveX() *big.Int {
 	}
 }
 
-var lamClasses = []string{"one", "two", "small", "minus_one", "random", "random", "mont_window", "limb_struct"}
+var lamClasses = []string{"one", "two", "small", "minus_one", "random", "random", "mont_window", "limb_struct", "mont_near_const", "sq_mont_window"}
 
 func (m *M) lambda(class string) *big.Int {
 	switch class {
@@ -77,6 +77,20 @@ func (m *M) lambda(class string) *big.Int {
 		return big.NewInt(int64(3 + m.rng.Intn(1000)))
 	case "minus_one":
 		return new(big.Int).Sub(bigP, one)
+	case "sq_mont_window": // Z such that Z^2 (the first thing the doubling computes) has Montgomery limbs in a window
+		for {
+			w, _ := m.window()
+			v := mulmod(new(big.Int).Mod(w, bigP), rInvP, bigP)
+			if l := new(big.Int).ModSqrt(v, bigP); l != nil && l.Sign() != 0 {
+				return l
+			}
+		}
+	case "mont_near_const": // Z whose Montgomery-form limbs are those of 1 (or 0, -1) with a bit or a limb changed
+		for {
+			if l := mulmod(new(big.Int).Mod(m.nearMontConst(bigP), bigP), rInvP, bigP); l.Sign() != 0 {
+				return l
+			}
+		}
 	case "limb_struct": // Z whose Montgomery-form limbs are structured per 64-bit / 32-bit unit
 		for {
 			if l := mulmod(new(big.Int).Mod(m.limbStruct(), bigP), rInvP, bigP); l.Sign() != 0 {
@@ -210,26 +224,7 @@ func (m *M) scalarOf(class string) *big.Int {
 		w, _ := m.window()
 		return mulmod(new(big.Int).Mod(w, bigN), rInvN, bigN)
 	case "mont_near_const": // the stored limbs are those of 0, 1 or -1 with one or two bits / one limb changed
-		base := []*big.Int{big.NewInt(0), new(big.Int).Mod(bigR, bigN), new(big.Int).Sub(bigN, new(big.Int).Mod(bigR, bigN))}[m.rng.Intn(3)]
-		w := new(big.Int).Set(base)
-		switch m.rng.Intn(3) {
-		case 0:
-			w.SetBit(w, m.rng.Intn(256), w.Bit(m.rng.Intn(256))^1)
-		case 1:
-			i, j := m.rng.Intn(256), m.rng.Intn(256)
-			w.SetBit(w, i, w.Bit(i)^1)
-			w.SetBit(w, j, w.Bit(j)^1)
-		default: // one whole 64-bit limb incremented / zeroed
-			sh := uint(64 * m.rng.Intn(4))
-			if m.rng.Intn(2) == 0 {
-				w.Add(w, new(big.Int).Lsh(one, sh))
-			} else {
-				mask := new(big.Int).Lsh(new(big.Int).SetUint64(^uint64(0)), sh)
-				w.AndNot(w, mask)
-			}
-		}
-		w.Mod(w, bigR)
-		return mulmod(new(big.Int).Mod(w, bigN), rInvN, bigN)
+		return mulmod(new(big.Int).Mod(m.nearMontConst(bigN), bigN), rInvN, bigN)
 	default:
 		return m.randBig(bigN)
 	}
@@ -277,6 +272,13 @@ func pointWithY(y *big.Int) (*big.Int, *big.Int) {
 func (m *M) limbStruct() *big.Int {
 	pats := []uint64{0, 0, 1, 1 << 32, 1 << 63, 0xffffffff00000000, 0x00000000ffffffff, ^uint64(0), uint64(m.rng.Uint32()) << 32}
 	t := new(big.Int)
+	if m.rng.Intn(4) == 0 { // exactly one non-zero limb
+		w := pats[2+m.rng.Intn(len(pats)-2)]
+		if m.rng.Intn(2) == 0 {
+			w = m.rng.Uint64() | 1
+		}
+		return t.Lsh(new(big.Int).SetUint64(w), uint(64*m.rng.Intn(4)))
+	}
 	for i := 0; i < 4; i++ {
 		t.Lsh(t, 64).Or(t, new(big.Int).SetUint64(pats[m.rng.Intn(len(pats))]))
 	}
@@ -284,6 +286,45 @@ func (m *M) limbStruct() *big.Int {
 		t.SetUint64(1 << 32)
 	}
 	return t
+}
+
+// nearMontConst returns a 256-bit value that is the Montgomery form of 0, 1 or -1 (for the given modulus) with one
+// or two bits flipped, one limb incremented, zeroed or replaced: what limb-wise "is it 1 / 0 / equal" tests react to.
+func (m *M) nearMontConst(mod *big.Int) *big.Int {
+	rm := new(big.Int).Mod(bigR, mod)
+	base := []*big.Int{big.NewInt(0), rm, rm, new(big.Int).Sub(mod, rm)}[m.rng.Intn(4)]
+	w := new(big.Int).Set(base)
+	switch m.rng.Intn(6) {
+	case 4, 5: // one whole 64-bit limb replaced by a small or random word
+		sh := uint(64 * m.rng.Intn(4))
+		mask := new(big.Int).Lsh(new(big.Int).SetUint64(^uint64(0)), sh)
+		w.AndNot(w, mask)
+		v := uint64(1 + m.rng.Intn(16))
+		if m.rng.Intn(2) == 0 {
+			v = m.rng.Uint64()
+		}
+		w.Or(w, new(big.Int).Lsh(new(big.Int).SetUint64(v), sh))
+	case 0:
+		i := m.rng.Intn(256)
+		w.SetBit(w, i, w.Bit(i)^1)
+	case 1:
+		i, j := m.rng.Intn(256), m.rng.Intn(256)
+		w.SetBit(w, i, w.Bit(i)^1)
+		w.SetBit(w, j, w.Bit(j)^1)
+	case 2: // one whole 64-bit limb replaced by a small or random word
+		sh := uint(64 * m.rng.Intn(4))
+		mask := new(big.Int).Lsh(new(big.Int).SetUint64(^uint64(0)), sh)
+		w.AndNot(w, mask)
+		v := uint64(m.rng.Intn(16))
+		if m.rng.Intn(2) == 0 {
+			v = m.rng.Uint64()
+		}
+		w.Or(w, new(big.Int).Lsh(new(big.Int).SetUint64(v), sh))
+	default:
+		sh := uint(64 * m.rng.Intn(4))
+		w.Add(w, new(big.Int).Lsh(one, sh))
+	}
+	return w.Mod(w, bigR)
 }
 
 // highLimbsOfP returns a value below p that shares p's upper limbs: the low 1..3 limbs are small or random.
@@ -329,7 +370,18 @@ func (m *M) structuredPoint() (*big.Int, *big.Int, string) {
 func (m *M) window() (*big.Int, string) {
 	d := big.NewInt(int64(m.rng.Intn(1 << 20)))
 	half := new(big.Int).Rsh(new(big.Int).Add(bigP, one), 1)
-	switch m.rng.Intn(12) {
+	switch m.rng.Intn(14) {
+	case 12, 13: // next to j * 2^256 / c for the small constants of the formulas (2, 3, 4, 8, b3 = 21): where c * v wraps
+		c := []int64{2, 3, 4, 8, 21, 21}[m.rng.Intn(6)]
+		j := int64(1 + m.rng.Intn(int(c-1)))
+		t := new(big.Int).Mul(bigR, big.NewInt(j))
+		t.Div(t, big.NewInt(c))
+		if m.rng.Intn(2) == 0 {
+			t.Add(t, d)
+		} else {
+			t.Sub(t, new(big.Int).Add(d, one))
+		}
+		return t.Mod(t, bigR), "fraction_of_2^256"
 	case 9, 10: // the high limbs of p, the low 1..3 limbs anything below p's: comparison chains that short-cut on limbs
 		k := uint(64 * (1 + m.rng.Intn(3)))
 		hi := new(big.Int).Rsh(bigP, k)
